@@ -27,7 +27,7 @@ def _mask_arg(Bk, case):
     N = case['N']
     if len(case['qubits']) == N and not case.get('usemask', True):
         return None
-    return Bk.mask(case['qubits'], N)
+    return Bk.mask_arg(case['qubits'], N)
 
 
 def _nt(case, L, K, GL, gk):
@@ -185,7 +185,7 @@ def f_sequence(case):
     for step in case['steps']:
         sc = {'N': N, 'gen': step['gen'], 'qubits': step['qubits']}
         GL, gk, gl = _embed_gen(sc)
-        m = Bk.mask(step['qubits'], N)
+        m = Bk.mask_arg(step['qubits'], N)
         nt = nt or _nt(sc, cl, ck, GL, gk)
         obj.rotate_by(gen_obj(step), m)
         cl, ck = ref.rotate_rule(cl, ck, GL, gk)
@@ -194,14 +194,14 @@ def f_sequence(case):
     for step in reversed(case['steps']):
         sc = {'N': N, 'gen': step['gen'], 'qubits': step['qubits']}
         GL, gk, gl = _embed_gen(sc)
-        obj.rotate_by(-gen_obj(step), Bk.mask(step['qubits'], N))
+        obj.rotate_by(-gen_obj(step), Bk.mask_arg(step['qubits'], N))
     C.expect_list(Bk.read_list(obj), (L, K), 'after undoing all rotations with -G', 'undo')
     if case['steps']:
         step = case['steps'][0]
         sc = {'N': N, 'gen': step['gen'], 'qubits': step['qubits']}
         GL, gk, gl = _embed_gen(sc)
         for _ in range(4):
-            obj.rotate_by(gen_obj(step), Bk.mask(step['qubits'], N))
+            obj.rotate_by(gen_obj(step), Bk.mask_arg(step['qubits'], N))
         C.expect_list(Bk.read_list(obj), (L, K), 'after four rotations by %s' % step['gen'], 'four')
     return {'nt': nt and len(case['steps']) >= 2, 'labels': ['steps=%d' % len(case['steps'])]}
 
